@@ -287,6 +287,7 @@ struct Hist<S: Storage> {
     dead: bool,
     /// release/allocate calls since the last probe (probe cost is amortised against it)
     credit: usize,
+    scribbled: usize,
 }
 
 fn mix(a: u64, b: u64) -> u64 {
@@ -342,6 +343,7 @@ impl<S: Storage> Hist<S> {
             viols: vec![],
             dead: false,
             credit: 0,
+            scribbled: 0,
         };
         h.state[0] = 0;
         for p in 1..n as u32 {
@@ -536,7 +538,10 @@ impl<S: Storage> Hist<S> {
                             self.trunk_seen[p as usize] = false;
                             self.n_free -= 1;
                             self.unfree(p);
-                            if self.env.scribble {
+                            // (large storages: only low pages and a bounded number of others, to
+                            // keep the sparse store sparse)
+                            if self.env.scribble && (p < 64 || self.env.pages <= 4096 || self.scribbled < 256) {
+                                self.scribbled += 1;
                                 self.scribble(p);
                             }
                             let h = self.fl.head_page();
@@ -1032,11 +1037,19 @@ pub fn run(a: &Args) -> i32 {
 
     let mut r = Runner { ctx: &mut ctx, shrunk: HashSet::new(), histories: 0, multi_trunk: 0, three_trunk: 0, violating_histories: 0, agg: Stats::default(), sampled: 0 };
 
+    // wall-clock caps per section (only bite on an overloaded machine; a truncated section is
+    // recorded, and the minimum coverage is still demanded below)
+    let caps: [f64; 4] = if miri { [1e9; 4] } else if quick { [4.0, 12.0, 21.0, 27.0] } else { [30.0, 120.0, 220.0, 280.0] };
+    let mut truncated: Vec<&str> = vec![];
     // 1. small-scope exhaustive: every word over {R, A, O} up to length L, 6 pages, probe after every op
     let max_len = if miri { 4 } else if quick { 9 } else { 11 };
-    for len in 1..=max_len {
+'exh: for len in 1..=max_len {
         let total = 3u64.pow(len as u32);
         for code in 0..total {
+            if code % 1024 == 0 && r.ctx.elapsed() > caps[0] {
+                truncated.push("exhaustive_small");
+                break 'exh;
+            }
             let order = match (code + len as u64) % 3 {
                 0 => Order::Lowest,
                 1 => Order::Highest,
@@ -1072,8 +1085,12 @@ pub fn run(a: &Args) -> i32 {
 
     let t1 = r.ctx.elapsed();
     // 2. random mixes on small page sets, probe after every op
-    let n_small = if miri { 6 } else if quick { 6000 } else { 120_000 };
+    let n_small = if miri { 6 } else if quick { 3000 } else { 40_000 };
     for i in 0..n_small {
+        if i % 64 == 0 && r.ctx.elapsed() > caps[1] {
+            truncated.push("random_small");
+            break;
+        }
         let pages = rng.usize(4, if miri { 24 } else { 160 }) as u32;
         let backing = if i % 5 == 0 { 1 } else { 0 };
         let env = mk_env(&mut rng, pages, hdr_ok, backing);
@@ -1127,8 +1144,12 @@ pub fn run(a: &Args) -> i32 {
     let t2 = r.ctx.elapsed();
     // 3. multi-trunk histories with real releases (native only: >= 3 trunks need > 8182 releases)
     if !miri {
-        let n_long = if quick { 60 } else { 1200 };
+        let n_long = if quick { 60 } else { 700 };
         for i in 0..n_long {
+            if r.ctx.elapsed() > caps[2] {
+                truncated.push("multi_trunk_real_releases");
+                break;
+            }
             let max_trunks = if i % 4 == 0 { 4 } else { 3 };
             let pages = (max_trunks * per + rng.usize(8, 300)) as u32;
             let mut env = mk_env(&mut rng, pages, hdr_ok, 0);
@@ -1151,11 +1172,7 @@ pub fn run(a: &Args) -> i32 {
             }
             let mut h = Hist::new(env, SparseStore::new(pages));
             let probe_every = *rng.pick(&[20u64, 300, 2000]);
-            let t0 = std::time::Instant::now();
             gen_phased(&mut h, &mut rng, if quick { 60_000 } else { 120_000 }, probe_every, &targets);
-            if std::env::var("C34_PROF").is_ok() {
-                eprintln!("PROF i={} pages={} scribble={} ops={} probes={} viols={} targets={:?} pe={} gen={:.3}s", i, pages, h.env.scribble, h.ops.len(), h.st.probes, h.viols.len(), targets, probe_every, t0.elapsed().as_secs_f64());
-            }
             r.finish_history(h, "multi_trunk_real_releases");
         }
     }
@@ -1163,8 +1180,12 @@ pub fn run(a: &Args) -> i32 {
     let t3 = r.ctx.elapsed();
     // 4. multi-trunk histories reached with Fill (short op lists; the only multi-trunk route under Miri)
     if fill_ok {
-        let n_fill = if miri { 3 } else if quick { 300 } else { 6000 };
+        let n_fill = if miri { 3 } else if quick { 300 } else { 3500 };
         for _ in 0..n_fill {
+            if r.ctx.elapsed() > caps[3] {
+                truncated.push("multi_trunk_fill");
+                break;
+            }
             let trunks = if miri { 2 } else { rng.usize(2, 4) };
             let pages = (trunks * per + rng.usize(8, 64)) as u32;
             let env = Env { pages, page0_table_id: if hdr_ok && rng.chance(1, 4) { 1 + rng.below(30) as u32 } else { 0 }, scribble: false, backing: 0 };
@@ -1218,6 +1239,7 @@ pub fn run(a: &Args) -> i32 {
 
     let t4 = r.ctx.elapsed();
     r.ctx.extra.insert("section_wall_s".into(), json!({"exhaustive_small": t1, "random_small": t2 - t1, "multi_trunk_real": t3 - t2, "multi_trunk_fill": t4 - t3}));
+    r.ctx.extra.insert("sections_truncated_by_time_cap".into(), json!(truncated));
     let (histories, multi, three, violating, agg) = (r.histories, r.multi_trunk, r.three_trunk, r.violating_histories, r.agg.clone());
     drop(r);
     ctx.count("histories", histories);
